@@ -24,6 +24,8 @@ ROUND_TEXT = {
     15: "as round 14",
     16: "as round 14; the seeders were asked to prefer code that the property itself is about",
     17: "as round 16",
+    18: "as round 16",
+    19: "as round 16",
 }
 
 
